@@ -55,22 +55,23 @@ type flavor struct {
 	fewKeys     bool // small key set with many repeats and tombstones
 	verMix      bool // re-draw version options at reopen, package-level Migrate
 	smallRoll   bool
+	oversize    bool // rarely a batch with a message larger than the format takes
 }
 
 var flavors = map[string]flavor{
-	"C01": {name: "C01", wRO: 4, wPub: 40, wDel: 10, wDelMulti: 4, wTrim: 6, wCompact: 4, wGC: 4, wSync: 3, wReopen: 12, monoPct: 50, obsScan: true, obsFs: true, sweepEvery: 1, verMix: true},
-	"C02": {name: "C02", wRO: 3, wPub: 40, wDel: 25, wDelMulti: 5, wTrim: 4, wReopen: 18, wSync: 4, monoPct: 50, obsScan: true, sweepEvery: 1},
-	"C03": {name: "C03", wRO: 5, wPub: 40, wDel: 22, wDelMulti: 4, wTrim: 4, wReopen: 8, wGC: 4, monoPct: 50, sweepCons: true, sweepEvery: 3, smallRoll: true},
-	"C04": {name: "C04", wRO: 5, wPub: 40, wDel: 22, wDelMulti: 4, wTrim: 4, wReopen: 8, wGC: 4, monoPct: 50, sweepGet: true, sweepEvery: 2, smallRoll: true},
-	"C09": {name: "C09", wRO: 5, wPub: 45, wDel: 18, wDelMulti: 3, wCompact: 4, wReopen: 8, wGC: 5, monoPct: 50, sweepKeys: true, sweepEvery: 2, fewKeys: true, smallRoll: true},
-	"C10": {name: "C10", wRO: 5, wPub: 45, wDel: 18, wDelMulti: 3, wTrim: 3, wReopen: 10, wGC: 5, monoPct: 100, sweepTimes: true, sweepEvery: 2, smallRoll: true},
+	"C01": {name: "C01", oversize: true, wRO: 4, wPub: 40, wDel: 10, wDelMulti: 4, wTrim: 6, wCompact: 4, wGC: 4, wSync: 3, wReopen: 12, monoPct: 50, obsScan: true, obsFs: true, sweepEvery: 1, verMix: true},
+	"C02": {name: "C02", oversize: true, wRO: 3, wPub: 40, wDel: 25, wDelMulti: 5, wTrim: 4, wReopen: 18, wSync: 4, monoPct: 50, obsScan: true, sweepEvery: 1, verMix: true},
+	"C03": {name: "C03", wRO: 5, wPub: 40, wDel: 22, wDelMulti: 4, wTrim: 4, wReopen: 8, wGC: 4, monoPct: 50, sweepCons: true, sweepEvery: 3, smallRoll: true, verMix: true},
+	"C04": {name: "C04", wRO: 5, wPub: 40, wDel: 22, wDelMulti: 4, wTrim: 4, wReopen: 8, wGC: 4, monoPct: 50, sweepGet: true, sweepEvery: 2, smallRoll: true, verMix: true},
+	"C09": {name: "C09", wRO: 5, wPub: 45, wDel: 18, wDelMulti: 3, wCompact: 4, wReopen: 8, wGC: 5, monoPct: 50, sweepKeys: true, sweepEvery: 2, fewKeys: true, smallRoll: true, verMix: true},
+	"C10": {name: "C10", wRO: 5, wPub: 45, wDel: 18, wDelMulti: 3, wTrim: 3, wReopen: 10, wGC: 5, monoPct: 100, sweepTimes: true, sweepEvery: 2, smallRoll: true, verMix: true},
 	"C11": {name: "C11", wPub: 45, wDel: 14, wDelMulti: 3, wTrim: 3, wCompact: 2, wReopen: 22, wGC: 4, monoPct: 70, obsScan: true, closeChecks: true, sweepEvery: 4, verMix: true, sweepGet: true, sweepKeys: true, sweepTimes: true},
 	"C12": {name: "C12", wPub: 35, wDel: 30, wDelMulti: 14, wReopen: 8, wGC: 3, monoPct: 50, obsScan: true, obsFs: true, sweepEvery: 1, verMix: true, smallRoll: true},
 	"C13": {name: "C13", wRO: 4, wPub: 45, wDel: 15, wDelMulti: 4, wTrim: 4, wReopen: 12, wGC: 3, monoPct: 50, obsScan: true, obsFs: true, sweepEvery: 1, verMix: true},
 	"C15": {name: "C15", wPub: 40, wDel: 8, wTrim: 26, wFind: 14, wReopen: 6, monoPct: 70, obsScan: true, sweepEvery: 1, smallRoll: true},
-	"C16": {name: "C16", wPub: 45, wDel: 5, wCompact: 26, wFind: 10, wReopen: 6, monoPct: 70, obsScan: true, sweepEvery: 1, fewKeys: true, smallRoll: true},
+	"C16": {name: "C16", wPub: 45, wDel: 5, wCompact: 26, wFind: 10, wReopen: 6, monoPct: 70, obsScan: true, sweepEvery: 1, fewKeys: true, smallRoll: true, verMix: true},
 	"C17": {name: "C17", wPub: 40, wDel: 18, wDelMulti: 4, wTrim: 3, wReopen: 26, monoPct: 60, obsScan: true, obsFs: true, sweepEvery: 1, verMix: true, smallRoll: true},
-	"C19": {name: "C19", wPub: 40, wDel: 10, wReopen: 10, wRO: 22, wGC: 3, monoPct: 70, obsScan: true, obsFs: true, sweepEvery: 1, sweepGet: true, sweepKeys: true, sweepTimes: true},
+	"C19": {name: "C19", wPub: 40, wDel: 10, wReopen: 10, wRO: 22, wGC: 3, monoPct: 70, obsScan: true, obsFs: true, sweepEvery: 1, sweepGet: true, sweepKeys: true, sweepTimes: true, verMix: true},
 	"C20": {name: "C20", wPub: 45, wDel: 10, wDelMulti: 3, wTrim: 3, wReopen: 8, wBackup: 22, monoPct: 60, obsScan: true, sweepEvery: 2, verMix: true, smallRoll: true},
 }
 
@@ -258,8 +259,15 @@ func (g *seqGen) pub() {
 		t   string
 		key string
 	}
+	// rarely: a batch whose last message is larger than the format takes (the whole batch must be refused and
+	// nothing of it may reach the files)
+	big := n >= 2 && g.fl.oversize && g.r.chance(3)
 	for i := 0; i < n; i++ {
-		fmt.Fprintf(&sb, " %s:%s:%s", g.genTime(), g.genKey(), g.genVal())
+		val := g.genVal()
+		if big && i == n-1 {
+			val = "!big"
+		}
+		fmt.Fprintf(&sb, " %s:%s:%s", g.genTime(), g.genKey(), val)
 	}
 	res := g.emit(sb.String())
 	if strings.HasPrefix(res, "ok ") && !g.ro {
